@@ -72,6 +72,15 @@ func discharge(u *Universe, o *Obligation, dir string, timeoutS int, confirm boo
 	fname := filepath.Join(dir, sanitizeFile(o.Name)+fmt.Sprintf("__p%d_%x.smt2", o.Path, fnv(script)))
 	os.WriteFile(fname, []byte("; obligation "+o.Name+"\n; source "+o.Src+"\n"+script), 0o644)
 	o.File = fname
+	// second encoding: nonlinear arithmetic abstracted (only if there is any)
+	absName := ""
+	if !o.Cover && (strings.Contains(script, "(* ") || strings.Contains(script, "(/ ")) {
+		as := u.ScriptAbstract(o.Assumptions, o.Goal)
+		if strings.Contains(as, "u_mul_") || strings.Contains(as, "u_div_") {
+			absName = strings.TrimSuffix(fname, ".smt2") + ".abs.smt2"
+			os.WriteFile(absName, []byte("; obligation "+o.Name+" (nonlinear arithmetic abstracted: only unsat is meaningful)\n"+as), 0o644)
+		}
+	}
 	start := time.Now()
 	definite := func(r solveResult) bool { return r.result == "unsat" || r.result == "sat" }
 	var r solveResult
@@ -80,13 +89,26 @@ func discharge(u *Universe, o *Obligation, dir string, timeoutS int, confirm boo
 		r = runSolver(context.Background(), solvers[0], fname, 2)
 	} else {
 		ctx, cancel := context.WithCancel(context.Background())
-		ch := make(chan solveResult, len(solvers))
+		ch := make(chan solveResult, 2*len(solvers))
+		n := 0
 		for _, s := range solvers {
+			n++
 			go func(s solverSpec) { ch <- runSolver(ctx, s, fname, timeoutS) }(s)
+			if absName != "" {
+				n++
+				go func(s solverSpec) {
+					r := runSolver(ctx, s, absName, timeoutS)
+					r.solver += "(nl-abstracted)"
+					if r.result == "sat" {
+						r.result = "unknown" // a model of the abstraction is not a counterexample
+					}
+					ch <- r
+				}(s)
+			}
 		}
 		var last solveResult
 		got := false
-		for range solvers {
+		for i := 0; i < n; i++ {
 			rr := <-ch
 			if definite(rr) {
 				r = rr
